@@ -12,7 +12,7 @@ import (
 func init() {
 	register(&Prop{
 		ID:          "C08",
-		Explanation: "Decides that the authorisation predicates guard every serving path: every nil-error return of getAuthenticatedSession that is not a configured bypass re-ran Validator(session.Email) (skipped only for an empty e-mail) and provider.Authorize(session) with outcome true, and every ErrAccessDenied return first calls ClearSessionCookie; the login callback saves a session only after Validator(session.Email) && Authorize(session); the auth-only 202 writer is reached only after authOnlyAuthorize(req, session)==true for the session getAuthenticatedSession returned; authOnlyAuthorize returns true only for a nil session or after every element of a constraint list containing the three query constraints returned true; each query constraint returns true only when its parameter is absent or a membership test on the session's own field succeeded; the only Provider.Authorize implementation returns true only for an empty allowed-groups map or a membership hit of a session group; isEmailValidWithDomains accepts only through suffix tests applied to an end-anchored part of the address (the address or its last '@'-separated element) against an operand that starts at '@' or at a '.' label boundary, and the validator closure answers true only by that rule, the authenticated-emails file or the '*' rule and never for an empty address.",
+		Explanation: "Decides that the authorisation predicates guard every serving path: every nil-error return of getAuthenticatedSession that is not a configured bypass re-ran Validator(session.Email) (skipped only for an empty e-mail) and provider.Authorize(session) with outcome true, and every ErrAccessDenied return first calls ClearSessionCookie; the login callback saves a session only after Validator(session.Email) && Authorize(session); the auth-only 202 writer is reached only after authOnlyAuthorize(req, session)==true for the session getAuthenticatedSession returned; authOnlyAuthorize returns true only for a nil session or after every element of a constraint list containing the three query constraints returned true; each query constraint returns true only when its parameter is absent or a membership test on the session's own field succeeded; the only Provider.Authorize implementation returns true only for an empty allowed-groups map or a membership hit of a session group; isEmailValidWithDomains accepts only through suffix tests applied to an end-anchored part of the address (the address or its last '@'-separated element) against an operand that starts at '@' or at a '.' label boundary, and the validator closure answers true only by that rule, the authenticated-emails file or the '*' rule and never for an empty address; the allow-list/htpasswd file watcher runs its reload action on every path that selected a remove/create/write event and WaitForReplacement returns only after the watch was re-added.",
 		NotDecided:  "value semantics of the string predicates beyond their accepting-path structure (case folding, unusual local parts), IsEndpointAllowed for auth-only domain constraints (see C06.R4), UserMap contents.",
 		Run:         runC08,
 	})
@@ -23,6 +23,7 @@ func runC08(c *Ctx) {
 	r.Rule("R1-every-request", "authenticated returns of getAuthenticatedSession re-run Validator and Authorize; denied returns clear the cookie first", 4)
 	r.Rule("R2-callback", "callback saves only after Validator(session.Email) && Authorize(session)", 1)
 	r.Rule("R3-auth-only", "202 only after authOnlyAuthorize(req, session)==true; authOnlyAuthorize / checkAllowed* structure", 10)
+	r.Rule("R6-rules-reload", "the rule-file watcher runs the reload action for every selected event and returns from waiting only after re-arming the watch", 2)
 	r.Rule("R5-email-validator", "accepting paths of the e-mail validator: end-anchored suffix tests at '@' or '.' boundaries; validator true only by domain rule, file or '*'", 2)
 	r.Rule("R4-authorize", "Provider.Authorize has one implementation, true only on empty AllowedGroups or membership", 2)
 
@@ -91,6 +92,7 @@ func runC08(c *Ctx) {
 	}
 
 	runC08R5(c)
+	runC08R6(c)
 
 	// ---- R4 ---------------------------------------------------------------------------------
 	rule = "R4-authorize"
@@ -548,4 +550,74 @@ func domainOf(v ssa.Value) ssa.Value {
 		return sl.X
 	}
 	return v
+}
+
+// runC08R6: rule changes after login take effect — the file watcher always reloads and always re-arms.
+func runC08R6(c *Ctx) {
+	rule := "R6-rules-reload"
+	filter := c.Fn(rule, "pkg/watcher.filterEvent")
+	wait := c.Fn(rule, "pkg/watcher.WaitForReplacement")
+	if filter == nil || wait == nil {
+		return
+	}
+	action := filter.Params[3]
+	c.Walk(rule, filter, func(p *walk.Path) {
+		if _, ok := p.Exit.(*ssa.Return); !ok {
+			return
+		}
+		at := p.End()
+		// which event class did this path select? (op & mask) != 0 assumed true
+		selected := false
+		for _, a := range p.Atoms(at) {
+			b, ok := a.DV.V.(*ssa.BinOp)
+			if !ok || a.IsNil {
+				continue
+			}
+			// the switch compares (Clean(name)==filename) with (op&mask != 0): a generic equality atom between two booleans
+			if (b.Op == token.EQL || b.Op == token.NEQ) && a.Val {
+				for _, side := range []ssa.Value{b.X, b.Y} {
+					if inner, ok := side.(*ssa.BinOp); ok && inner.Op == token.NEQ {
+						if and, ok := inner.X.(*ssa.BinOp); ok && and.Op == token.AND {
+							selected = true
+						}
+					}
+				}
+			}
+		}
+		if !selected {
+			return
+		}
+		key := "event-reloads|" + fnKey(filter)
+		called := false
+		for _, cl := range p.Calls() {
+			if !cl.C.IsInvoke() && cl.C.StaticCallee() == nil && p.Resolve(p.StepOp(cl.C.Value, cl.Step)).V == action {
+				called = true
+			}
+		}
+		if called {
+			c.ok(rule, key, p.Exit, "a selected file event always ends in action()")
+		} else {
+			c.bad(rule, key, p.Exit, "a remove/create/write event on the watched file can be handled without running the reload action: rule changes after login stop taking effect", p, at)
+		}
+	})
+	// WaitForReplacement returns only after the watch was re-added successfully
+	c.Walk(rule, wait, func(p *walk.Path) {
+		if _, ok := p.Exit.(*ssa.Return); !ok {
+			return
+		}
+		key := "rearmed|" + fnKey(wait)
+		ok := false
+		for _, cl := range p.Calls() {
+			if sc := cl.C.StaticCallee(); sc != nil && sc.Name() == "Add" && sc.Pkg != nil && sc.Pkg.Pkg.Path() == "github.com/fsnotify/fsnotify" {
+				if n, k := p.ResultNil(cl.DV(), -1, p.End()); k && n {
+					ok = true
+				}
+			}
+		}
+		if ok {
+			c.ok(rule, key, p.Exit, "returns only after watcher.Add(filename) succeeded")
+		} else {
+			c.bad(rule, key, p.Exit, "WaitForReplacement can return without having re-added the watch: later rewrites of the file are never seen", p, p.End())
+		}
+	})
 }
